@@ -32,6 +32,7 @@ def run(ctx):
             return e
         same_ = json_.dumps(rn(G.expr("list")), sort_keys=True) == json_.dumps(G.expr("record"), sort_keys=True) and G.ty("list") == G.ty("record")
         ctx.inst("C07.R8", "grammar#list==record", same_, "`list` is `record` with [ ] and list_item for { } and record_item: %s (what the shared multi-line layout prints for one must be accepted for the other)" % same_, "blots-core/src/grammar.pest")
+    P.single_line_probe(ctx, "C07.R9", core)
     from rules import c10
     ctx.rule("C07.L12", "the parser binds as the documented table says (levels, members, associativity): the printers' parenthesisation rules are written against that table, so a parser that groups or orders operators differently re-reads unparenthesised output as another tree", floor=30)
     c10.CRATE[0] = core
